@@ -242,7 +242,8 @@ type Server struct {
 
 	nextProtos map[string]ServeHandler
 
-	concurrencyCh chan struct{}
+	concurrencyCh     chan struct{}
+	concurrencyChOnce sync.Once
 
 	idleConns map[net.Conn]*atomic.Int64
 	done      chan struct{}
@@ -1984,10 +1985,8 @@ func (s *Server) Serve(ln net.Listener) error {
 	if s.done == nil {
 		s.done = make(chan struct{})
 	}
-	if s.concurrencyCh == nil {
-		s.concurrencyCh = make(chan struct{}, maxWorkersCount)
-	}
 	s.mu.Unlock()
+	s.initConcurrencyCh()
 
 	wp := &workerPool{
 		WorkerFunc:            s.serveConn,
@@ -2209,6 +2208,8 @@ var (
 //
 // ServeConn closes c before returning.
 func (s *Server) ServeConn(c net.Conn) error {
+	s.initConcurrencyCh()
+
 	if s.MaxConnsPerIP > 0 {
 		pic := wrapPerIPConn(s, c)
 		if pic == nil {
@@ -2239,6 +2240,14 @@ func (s *Server) ServeConn(c net.Conn) error {
 		s.setState(c, StateHijacked)
 	}
 	return err
+}
+
+// initConcurrencyCh creates the channel TimeoutHandler limits its goroutines
+// with. Both Serve and ServeConn need it.
+func (s *Server) initConcurrencyCh() {
+	s.concurrencyChOnce.Do(func() {
+		s.concurrencyCh = make(chan struct{}, s.getConcurrency())
+	})
 }
 
 func (s *Server) tryAcquireConcurrency() bool {
